@@ -14,7 +14,8 @@
      label equality (LabelBuf's Eq/Hash), new entries appended (iteration order is unspecified
      in Rust; every consumer compares iteration results as sets);
    * RdataSetOwned (length-prefixed octets in one Vec) is the list of its RDATAs;
-   * Rdata::equals is the Section variable [req] (class, type, new, existing);
+   * Rdata::equals is the Section variable [req] (class, type, new, existing); its real instance is
+     Model/ZoneReal.v [req_real] (the theorems for it: Proofs/ZoneRealP.v);
    * slice::binary_search_by_key over the Vec<Rrset> kept sorted by type is an ordered scan
      (same answer on sorted slices; sortedness is the invariant rrsets_sorted proved in Proofs/). *)
 From QV Require Import Base.Res Base.Octets Gen.ZoneConsts.
@@ -348,11 +349,11 @@ Definition zone_iter_by_node (z : zone) : list (name * rrset_list) := node_iter 
 Definition zone_iter_by_rrset (z : zone) : list (name * rrset) :=
   flat_map (fun nd => map (fun rs => (fst nd, rs)) (snd nd)) (node_iter (z_apex z)).
 
-(* The instance of Rdata::equals used by the executable runner (NOT used by any theorem, which
-   quantify over [req]): case-insensitive octet comparison for the types whose RDATA is one
-   domain name (names_equal on two valid names), octet equality otherwise.  The generators only
-   produce valid names for those types and avoid the other name-bearing type/class combinations
-   with differently-cased names. *)
+(* A simplified stand-in for Rdata::equals (NOT used by any theorem): case-insensitive octet
+   comparison for the types whose RDATA is one domain name, octet equality otherwise.  It was the
+   first wave's runner instance; the zone checks (C06/C20/C21) now run and prove the REAL equality
+   (Model/ZoneReal.v [req_real] = Model/RdataM.v [equals]).  Still used by the C04/C05/server runners,
+   whose generators stay where it is exact. *)
 Definition is_name_type (ty : N) : bool :=
   existsb (N.eqb ty) [2; 3; 4; 5; 7; 8; 9; 12]%N.
 Definition req_simple (cls ty : N) (a b : bytes) : bool :=
